@@ -85,12 +85,14 @@ Qed.
 Definition guard_eqb (a b : guard_kind) : bool :=
   match a, b with GReadonly, GReadonly | GQuery, GQuery | GNone, GNone => true | _, _ => false end.
 
-(** per method: dispatched, guard placed first, every state-changing body behind the read-only
-    guard, and ABI view methods have read-only bodies *)
+(** per method: dispatched; guard placed first; every method the ABI does not call view, and every
+    method whose body can write, sits behind the read-only guard; ABI view methods have
+    read-only bodies *)
 Definition method_ok (mf : method_facts) : bool :=
   mf_in_switch mf && mf_guard_first mf &&
   (negb (can_mutate (mf_id mf)) || guard_eqb (mf_guard mf) GReadonly) &&
-  (negb (mf_abi_view mf) || negb (can_mutate (mf_id mf))).
+  (negb (mf_abi_view mf) || negb (can_mutate (mf_id mf))) &&
+  (mf_abi_view mf || guard_eqb (mf_guard mf) GReadonly).
 
 Fixpoint nodupb (l : list Z) : bool :=
   match l with [] => true | x :: r => negb (existsb (Z.eqb x) r) && nodupb r end.
